@@ -1,12 +1,12 @@
 #!/bin/bash
-# usage: mutest.sh <prop> <file-relative-to-repo> <python-expr-old> <new>   — applies textual replace in a scratch worktree and runs the check
+# usage: mutest.sh <prop> <file-relative-to-repo> <old> <new>   — applies a textual replace in a scratch worktree and runs the check
 # (development aid; not registered in MANIFEST)
-set -e
 PROP=$1; FILE=$2; OLD=$3; NEW=$4
 WT=/tmp/wt_mut
 if [ ! -d $WT ]; then git -C /repo worktree add --detach $WT HEAD >/dev/null 2>&1; fi
+git -C $WT checkout -q --detach $(git -C /repo rev-parse HEAD) 2>/dev/null
 git -C $WT checkout -q -- .
-python3 - "$WT/$FILE" "$OLD" "$NEW" <<'PY'
+python3 - "$WT/$FILE" "$OLD" "$NEW" <<'PY' || exit 2
 import sys
 p,old,new=sys.argv[1:4]
 s=open(p).read()
@@ -14,6 +14,5 @@ assert s.count(old)>=1, "pattern not found"
 s=s.replace(old,new,1)
 open(p,'w').write(s)
 PY
-cd /verif && WILD_REPO=$WT ./check $PROP --tier quick 2>&1 | grep -E "VIOLATION|BAD|FAIL|violat|lost" | head -8
-echo "exit=$?"
+cd /verif && WILD_REPO=$WT ./check $PROP --tier quick 2>&1 | grep -E "VIOLATION|^  |new_violations|extraction failed|error" | cut -c1-400 | head -8
 git -C $WT checkout -q -- .
